@@ -169,6 +169,8 @@ type Lemma struct {
 	Where    string
 	Theory   string // "strings": proved with the native SMT string theory
 	Auto     bool   // assumed wherever its symbols occur (like an axiom), not only under `uses`
+	Uses     []string // def:<spec> - abstract definitions revealed in this lemma's own proof
+	Untyped  bool     // proved, and usable, without the Go type invariants of its parameters (integer ranges)
 }
 
 type PropertyMap struct {
@@ -320,9 +322,23 @@ func (p *parser) unary() Expr {
 				}
 				break
 			}
+			// optional explicit multi-pattern: forall x: T {t1, t2} :: body
+			var trigs []Expr
+			if p.isOp("{") {
+				p.pos++
+				for {
+					trigs = append(trigs, p.expr(0))
+					if p.isOp(",") {
+						p.pos++
+						continue
+					}
+					break
+				}
+				p.expectOp("}")
+			}
 			p.expectOp("::")
 			body := p.expr(0)
-			return &EQuant{Forall: t.val == "forall", Vars: vars, Body: body}
+			return &EQuant{Forall: t.val == "forall", Vars: vars, Body: body, Triggers: trigs}
 		case "let":
 			p.pos++
 			n := p.ident()
@@ -481,7 +497,7 @@ func parseExpr(src string) (e Expr, err error) {
 var itemKw = map[string]bool{"func": true, "extern": true, "spec": true, "axiom": true, "lemma": true,
 	"property": true, "opaque": true, "ghost": true, "theory": true, "import": true, "bind": true}
 var clauseKw = map[string]bool{"requires": true, "ensures": true, "modifies": true, "loop": true, "call": true,
-	"nopanic": true, "trusted": true, "pure": true, "cut": true, "induction": true, "fresh": true, "trigger": true, "uses": true, "auto": true, "select": true, "oncall": true, "onrecv": true, "iterates": true}
+	"nopanic": true, "trusted": true, "pure": true, "cut": true, "induction": true, "fresh": true, "trigger": true, "uses": true, "auto": true, "select": true, "oncall": true, "onrecv": true, "iterates": true, "untyped": true}
 
 type rawLine struct {
 	kw    string
@@ -823,6 +839,14 @@ func parseSpecFile(path string) (*SpecFile, error) {
 				return nil, fmt.Errorf("%s: unknown loop clause %q", l.where, f[1])
 			}
 		case "uses":
+			if cur == nil && curLemma != nil {
+				for _, n := range strings.Split(l.text, ",") {
+					if n = strings.TrimSpace(n); n != "" {
+						curLemma.Uses = append(curLemma.Uses, n)
+					}
+				}
+				continue
+			}
 			if cur == nil {
 				return nil, fmt.Errorf("%s: uses outside func", l.where)
 			}
@@ -896,6 +920,11 @@ func parseSpecFile(path string) (*SpecFile, error) {
 			}
 			k, _ := strconv.Atoi(m[1])
 			cur.CallHooks = append(cur.CallHooks, CallHook{Callee: callee, K: k, Ghost: m[3], E: e, Src: l.text, Where: l.where})
+		case "untyped":
+			if curLemma == nil {
+				return nil, fmt.Errorf("%s: untyped outside lemma", l.where)
+			}
+			curLemma.Untyped = true
 		case "auto":
 			if curLemma == nil {
 				return nil, fmt.Errorf("%s: auto outside lemma", l.where)
